@@ -130,6 +130,38 @@ func checkC07(c *mc.Ctx) {
 	c.Ev.AddScenario(mc.Scenario{Name: "all-merges", SpaceSize: total, Executed: done, Exhaustive: done == total,
 		Bound: fmt.Sprintf("all order-preserving merges of per-PID sequences of lengths %v", lens)})
 
+	// per-PID sequences that contain legitimate duplicate packets (same counter, same bytes,
+	// consecutive WITHIN the PID): every merge with other PIDs' packets - including between a
+	// packet and its duplicate - must leave the output unchanged
+	{
+		dupLists := [][]*ref.Pkt{nil, nil, l.lists[2]}
+		for _, k := range []int{0, 1} {
+			for i, p := range l.lists[k] {
+				dupLists[k] = append(dupLists[k], p)
+				if i == 1 || (k == 0 && i == 2) {
+					dupLists[k] = append(dupLists[k], p)
+				}
+			}
+		}
+		dl := &c07Lists{pids: []uint16{0x100, 0x101, 0x11}, lists: dupLists, solo: map[uint16][]string{}}
+		for i, pid := range dl.pids {
+			dl.solo[pid] = canonData(DemuxBytes(EncodePkts(dupLists[i])).Data)[pid]
+			if !equalStrs(dl.solo[pid], l.solo[pid]) {
+				c.Rep.Report("duplicate-changes-solo-output", map[string]any{"kind": "stream", "bytes": mc.Hex(EncodePkts(dupLists[i])), "message": fmt.Sprintf("PID %#x: adjacent duplicates change the output", pid)})
+			}
+		}
+		dlens := []int{len(dupLists[0]), len(dupLists[1]), len(dupLists[2])}
+		orders := mc.AllMerges(dlens)
+		dd := mc.ParFor(int64(len(orders)), c.OverBudget, func(i int64) {
+			st := BuildStream("dup-merge", dupLists, orders[i], nil)
+			c07Compare(c, dl, DemuxBytes(st.Bytes), orders[i], st.Bytes, true, nil)
+			c.Ev.Class("merge-with-duplicates", 1)
+		})
+		c.Ev.DistinctAdd(dd)
+		c.Ev.AddScenario(mc.Scenario{Name: "merges-with-duplicates", SpaceSize: int64(len(orders)), Executed: dd, Exhaustive: dd == int64(len(orders)),
+			Bound: fmt.Sprintf("all order-preserving merges of PES A (2 duplicated packets), PES B (1 duplicated packet) and the SDT PID, lengths %v", dlens)})
+	}
+
 	// insertions: null, adaptation-only of a used PID, TEI packet of a used PID, at every position of
 	// several base schedules
 	bases := [][]int{roundRobin(l.lists)}
@@ -221,7 +253,7 @@ func checkC07(c *mc.Ctx) {
 	c.Ev.DistinctAdd(cdone)
 	c.Ev.AddScenario(mc.Scenario{Name: "single-pid-corruption", SpaceSize: n, Executed: cdone, Exhaustive: cdone == n,
 		Bound: "every byte of every packet of PID 0x100 (PID bits excluded) x {0x00, 0xFF, ^0x01, ^0x80, +1, 0x47} plus TEI/PUSI/priority flips; all other PIDs must be unchanged"})
-	c.Ev.Require("pmt-after-pat", "pmt-before-pat", "packet-inserted", "pid-corrupted")
+	c.Ev.Require("pmt-after-pat", "pmt-before-pat", "packet-inserted", "pid-corrupted", "merge-with-duplicates")
 }
 
 func indexOf(o []int, v int) int {
